@@ -14,6 +14,9 @@ def _plain_net(s):
 
 def candidates(plan):
     """Yield (description, simpler plan) pairs, most aggressive first."""
+    if plan.get('family') == 'S4':
+        yield from _s4_candidates(plan)
+        return
     scn = plan['scenario']
     sched = plan['sched']
     fam = plan.get('family', 'S1')
@@ -90,6 +93,38 @@ def candidates(plan):
             c = copy.deepcopy(scn)
             del c['requests'][i]
             yield f'drop-request-{i}', {**plan, 'scenario': c}
+
+
+def _s4_candidates(plan):
+    sched = plan['sched']
+    if sched.get('strategy') != 'fifo' or sched.get('net', {}).get('chunk', 'whole') != 'whole':
+        yield 'fifo+plain-net', {**plan, 'sched': {'strategy': 'fifo', 'seed': 0,
+                                                   'net': {'chunk': 'whole', 'latency': 'const'}}}
+    if plan.get('cuts'):
+        yield 'no-cuts', {**plan, 'cuts': []}
+    msgs = plan['msgs']
+    lens = [len((m[0] + '\r\n').encode('utf-8')) for m in msgs]
+    if len(msgs) > 1:
+        # drop the last message if the stream ends before it starts
+        if plan['eof'] <= sum(lens[:-1]):
+            yield 'drop-last-message', {**plan, 'msgs': msgs[:-1]}
+        # drop the first message if it was delivered completely
+        if plan['eof'] >= lens[0]:
+            cuts = plan.get('cuts')
+            if cuts:
+                cuts = [c - lens[0] for c in cuts if c > lens[0]]
+            yield 'drop-first-message', {**plan, 'msgs': msgs[1:], 'eof': plan['eof'] - lens[0],
+                                         'cuts': cuts}
+    for i, m in enumerate(msgs):
+        if m[1] != 'text' or m[0] != 'x':
+            c = [list(x) for x in msgs]
+            delta = lens[i] - 3
+            start = sum(lens[:i])
+            if plan['eof'] >= start + lens[i] or plan['eof'] <= start:
+                c[i] = ['x', 'text', 'x']
+                eof = plan['eof'] - delta if plan['eof'] >= start + lens[i] else plan['eof']
+                if not plan.get('cuts'):
+                    yield f'simplify-message-{i}', {**plan, 'msgs': c, 'eof': eof}
 
 
 def minimise(plan, fails, budget=60):
